@@ -690,16 +690,19 @@ def laterCb (st : St) (a : Nat) : St :=
   else if (st.getW a).slot = -4 then processNotify st a
   else st
 
-def laterLoop (st : St) : List Nat → St
-  | [] => st
+/-- The `while(later)` loop over the detached queue (lines 823–829).  Returns the state and the deferred
+    callbacks it invoked, in order (read only by the theorems of C17). -/
+def laterLoopT (st : St) : List Nat → St × List Nat
+  | [] => (st, [])
   | a :: rest =>
-    if !st.isOk then st
-    else if !st.live a then st.fail .laterLoopThis
-    else if !(laterCb st a).isOk then laterCb st a
-    else if !(laterCb st a).live a then (laterCb st a).fail .laterLoopThis
-    else laterLoop ((laterCb st a).free a) rest
+    if !st.isOk then (st, [])
+    else if !st.live a then (st.fail .laterLoopThis, [])
+    else if !(laterCb st a).isOk then (laterCb st a, [a])
+    else if !(laterCb st a).live a then ((laterCb st a).fail .laterLoopThis, [a])
+    else ((laterLoopT ((laterCb st a).free a) rest).1, a :: (laterLoopT ((laterCb st a).free a) rest).2)
 
-/-- `tickit_evloop_invoke_timers`. -/
+def laterLoop (st : St) (l : List Nat) : St := (laterLoopT st l).1
+
 def timerPhaseShipped (fuel : Nat) (st : St) (now : TV) : St :=
   if (timerLoop fuel st now st.timers.head?).1.isOk then
     { (timerLoop fuel st now st.timers.head?).1 with
